@@ -478,6 +478,60 @@ func c15(c *Ctx) {
 		c.R.Check(okPos, load.FuncName(ib)+": positioned on the package stream", c.pos(ib.Pos()), "the success return is reached only on header.Name == xpkg.StreamFile", "the reader returned is not positioned on the package stream file")
 	}
 
+	c.R.Rule("R15.6", "the running version checked against a package's constraints is the build version itself; the object scheme (the allow-list of kinds for package types without per-object lint) registers only the package API groups", 4,
+		"a pre-release Crossplane would satisfy constraints it does not meet; a Function package could ship kinds no package may contain")
+	if gs := c.method("internal/version", "Versioner", "GetSemVer"); gs != nil {
+		nv := calls(gs, "github.com/Masterminds/semver.NewVersion")
+		if c.expect("semver.NewVersion", len(nv), 1, gs) {
+			arg := cfgx.CallArgs(nv[0])[0]
+			direct := true
+			for x := range flow.Strict.Back(arg) {
+				if _, isCall := x.(*ssa.Call); isCall {
+					direct = false
+				}
+				if _, isSlice := x.(*ssa.Slice); isSlice {
+					direct = false
+				}
+			}
+			_, p, _ := flow.AccessPathC(arg)
+			c.R.Check(direct && p == "version", site(nv[0])+" exact version", c.pos(nv[0].Pos()), "parses the build version string as it is (pre-release and build metadata included)", "the version parsed is derived from the build version by string operations: pre-release information that constraints depend on can be lost")
+		}
+	}
+	if ic := c.method("internal/version", "Versioner", "InConstraints"); ic != nil {
+		ck := cfgx.Calls(ic, func(ci ssa.CallInstruction) bool { return strings.HasSuffix(cfgx.CalleeName(ci), "semver.Constraints).Check") })
+		gsv := calls(ic, "(*"+xp+"internal/version.Versioner).GetSemVer")
+		if c.expect("Constraints.Check", len(ck), 1, ic) && c.expect("GetSemVer", len(gsv), 1, ic) {
+			c.R.Check(cfgx.CallArgs(ck[0])[0] == cfgx.TupleResult(gsv[0], 0), site(ck[0])+" checks running version", c.pos(ck[0].Pos()), "the constraint is checked against GetSemVer()", "the constraint is not checked against the running version")
+		}
+	}
+	if bs := c.fn("internal/xpkg", "BuildObjectScheme"); bs != nil {
+		allowed := map[string]bool{
+			xp + "apis/apiextensions/v1":                                  true, // XRDs and Compositions
+			"k8s.io/apiextensions-apiserver/pkg/apis/apiextensions/v1":      true, // CRDs
+			"k8s.io/apiextensions-apiserver/pkg/apis/apiextensions/v1beta1": true, // CRDs (legacy)
+			"k8s.io/api/admissionregistration/v1":                           true, // webhook configurations
+		}
+		n := 0
+		for _, x := range cfgx.Calls(bs, nil) {
+			var pkgPath string
+			if f := x.Common().StaticCallee(); f != nil && f.Pkg != nil && strings.Contains(f.Name(), "AddToScheme") {
+				pkgPath = f.Pkg.Pkg.Path()
+			} else if ld, ok := x.Common().Value.(*ssa.UnOp); ok {
+				if g, ok := ld.X.(*ssa.Global); ok && strings.Contains(g.Name(), "AddToScheme") && g.Pkg != nil {
+					pkgPath = g.Pkg.Pkg.Path()
+				}
+			}
+			if pkgPath == "" {
+				continue
+			}
+			n++
+			c.R.Check(allowed[pkgPath], site(x)+" object scheme group "+cfgx.ShortCallee(pkgPath), c.pos(x.Pos()), "registers a package API group", "registers the kinds of "+pkgPath+" in the object scheme: they become legal package content (for Functions the scheme is the only allow-list)")
+		}
+		if n < 3 {
+			c.R.Unknown(load.FuncName(bs)+": AddToScheme calls", c.pos(bs.Pos()), "expected the scheme registrations")
+		}
+	}
+
 	c.R.Rule("R15.5", "Verified is only set true for a reason", 2, "an unverified package would pass the revision controller's gate")
 	if sr := c.method("internal/controller/pkg/signature", "Reconciler", "Reconcile"); sr != nil {
 		val := cfgx.Calls(sr, func(ci ssa.CallInstruction) bool { return strings.HasSuffix(cfgx.CalleeName(ci), "signature.Validator).Validate") })
